@@ -7,7 +7,7 @@ open Pyc.Refs Pyc.Proto
     → `loaded=<ids in loading order> library=<loaded ids in document order> broken=<ids left>`
     `url <#id|text> ; uid:id uid:id …` → `obj:<uid>` | `brokenRef` | `malformed`
     `direct key:image key:image …` (properties whose texture names an image, document order)
-    → `params=<surf:im|samp:im …> maps=<key:uid …>` (uid = position of the sampler in params) -/
+    → `params=<surf:im-surface|samp:im …, sorted> maps=<key:first property holding the same sampler …>` -/
 def parseDef (w : String) : Option NodeDef :=
   match w.splitOn ":" with
   | [id, refs] => some ⟨id, (refs.splitOn ",").filter (· != "")⟩
@@ -48,7 +48,9 @@ def handle (_ : Unit) (line : String) : Unit × String :=
     match ps.mapM parsePair with
     | some pairs =>
       let r := Pyc.DirectTex.run pairs
-      ((), s!"params={joinWith "," (r.params.map (fun q => showPId q.1))} maps={joinWith "," (r.maps.map (fun m => s!"{m.1}:{m.2.2}"))}")
+      -- canonical: parameters as a sorted list, each map by the first property that holds the same sampler object
+      let first (u : Nat) : String := ((r.maps.find? (fun m => m.2.2 == u)).map (·.1)).getD "none"
+      ((), s!"params={joinWith "," (sortStrings (r.params.map (fun q => showPId q.1)))} maps={joinWith "," (r.maps.map (fun m => s!"{m.1}:{first m.2.2}"))}")
     | none => ((), "bad-op")
   | _ => ((), "bad-op")
 
